@@ -403,8 +403,8 @@ pub fn array_store_load<const MODE: u8, T: ByteValued>(val: T) {
         leak(r);
         ok
     });
-    kani::cover!(ok && do_store && i > 0);
-    kani::cover!(ok && !do_store && i > 0);
+    kani::cover!(ok && do_store && (i > 0 || sz == N));
+    kani::cover!(ok && !do_store && (i > 0 || sz == N));
     if ok && do_store {
         post::<MODE>(&c, off + i * sz, sz, &|j| val.as_slice()[j]);
     } else {
